@@ -16,6 +16,10 @@ class Unsupported(Exception):
     pass
 
 
+PANIC_PAT = re.compile(r"^(core|std)::(panicking::|rt::begin_panic|result::unwrap_failed|option::unwrap_failed|option::expect_failed|"
+                       r"slice::index::slice_\w+_fail|str::slice_error_fail|panic)")
+
+
 class Infeasible(Exception):
     pass
 
@@ -320,6 +324,9 @@ class Ex:
         m = re.match(r"^(-?\d+)_(u8|u16|u32|u64|u128|usize|i8|i16|i32|i64|i128|isize)$", t)
         if m:
             return Sc(int(m.group(1)), m.group(2))
+        m = re.match(r"^(-?[0-9.]+(?:[eE][-+]?\d+)?)(_)?f64$", t)
+        if m:
+            return Sc(float(m.group(1)), "f64")
         if t == "true":
             return Sc(True, "bool")
         if t == "false":
@@ -603,6 +610,11 @@ class Ex:
 
     def binop_conc(self, op, a, b):
         x, y, ty = a.v, b.v, a.ty
+        if ty == "f64":
+            r = {"Div": lambda: x / y, "Mul": lambda: x * y, "Add": lambda: x + y, "Sub": lambda: x - y}.get(op)
+            if r is None:
+                raise Unsupported("float op " + op)
+            return Sc(float(r()), "f64")
         if ty == "bool":
             x, y = bool(x), bool(y)
             r = {"BitAnd": x and y, "BitOr": x or y, "BitXor": x != y, "Eq": x == y, "Ne": x != y,
@@ -659,6 +671,15 @@ class Ex:
 
     def cast(self, v, ty, kind):
         ty = ty.strip()
+        if isinstance(v, Sc) and ty == "f64":
+            if not v.conc():
+                raise Unsupported("symbolic int to float")
+            return Sc(float(v.v), "f64")
+        if isinstance(v, Sc) and v.ty == "f64" and is_int(ty):
+            x = int(v.v)
+            w = INT_W[ty]
+            lo, hi = (-(1 << (w - 1)), (1 << (w - 1)) - 1) if is_signed(ty) else (0, (1 << w) - 1)
+            return Sc(max(lo, min(hi, x)), ty)
         if isinstance(v, Sc) and (is_int(ty) or ty == "bool"):
             if v.conc():
                 x = int(v.v)
@@ -745,6 +766,9 @@ class Ex:
                     bb = int(term[4][2:])
                 elif k == "call":
                     dest, callee, argops, ret = term[1], term[2], term[3], term[4]
+                    if PANIC_PAT.search(callee):
+                        self.ctx.oblige("panic", False, "explicit panic: %s" % callee[:80], "%s bb%d" % (fn.key, bb))
+                        raise Infeasible()
                     argv = [self.operand(frame, o) for o in argops]
                     res = self.call(callee, argv)
                     if ret is None:
